@@ -425,7 +425,11 @@ def gen_cop(ctx, rnd, cases):
 
 
 def closed_form(rho, x, y):
-    return -0.5 * math.log1p(-rho * rho) - (rho * rho * (x * x + y * y) - 2 * rho * x * y) / (2 * (1 - rho * rho))
+    """closed-form copula log-density; exact rational arithmetic up to the logarithm (near |rho| = 1 and on the ridge
+    the float evaluation of this formula cancels catastrophically)"""
+    rho, x, y = F(rho), F(x), F(y)
+    om = 1 - rho * rho
+    return -0.5 * math.log(float(om)) - float((rho * rho * (x * x + y * y) - 2 * rho * x * y) / (2 * om))
 
 
 def oracle_cop(c):
@@ -445,7 +449,7 @@ def oracle_cop(c):
             return (f"GaussianCopula(dependence={rho}).log_prob([{u}, {v}]) = {obs} with validate_args=True but {other} with "
                     f"validate_args=False on identical inputs{where}")
     x, y = float(norm.ppf(u)), float(norm.ppf(v))
-    want = closed_form(rho, x, y)
+    want = closed_form(pf(c["rho"]), x, y)
     if abs(obs - want) > (1e-6 if c.get("hp") else 1e-7) * max(1.0, abs(want)):
         return (f"GaussianCopula(dependence={rho}, validate_args={c['validate']}).log_prob([{u}, {v}]) = {obs} "
                 f"but the bivariate Gaussian copula log-density is {want}{where}")
